@@ -618,7 +618,7 @@ class Schema:
         | c_schema IF NOT EXISTS id
         | c_schema IF NOT EXISTS id DOT id
         | create_schema options"""
-        p_list = list(p)
+        p_list = [auth if str(i).upper() == auth else i for i in p]
         p[0] = {}
         auth_index = None
 
